@@ -16,7 +16,7 @@ _BUILD = _os.environ.get("VERIF_BUILD") or (_os.path.join(_VERIF, "build") if _R
 _CAPI = _os.path.join(_BUILD, "capi")
 
 def _manifest():
-    wanted = any(a in ("C20", "c20", "setup") for a in _sys.argv[1:])
+    wanted = any(a in ("c20", "setup") or "C20" in a for a in _sys.argv[1:])
     man_path = _os.path.join(_CAPI, "manifest.json")
     if wanted:
         _sys.path.insert(0, _os.path.join(_VERIF, "gen"))
